@@ -146,7 +146,7 @@ impl Property for C08 {
             .boxed()
     }
     fn quota(tier: Tier) -> u64 {
-        tier.pick(500_000, 10_000_000)
+        tier.pick(5_000_000, 80_000_000)
     }
     fn rule() -> String {
         "Multisets of 0-40 integer-valued coordinates (as f64 up to 2^52, or i64 below 2^29): tiny lattices with duplicates and many \
